@@ -132,6 +132,12 @@ Twins == <<
     <<"=", "{u+ff1d}">>, <<":", "{u+ff1a}">>, <<"!", "{u+ff01}", "{u+00a1}">>, <<"+", "{u+ff0b}">>, <<"/", "{u+ff0f}", "{u+2044}">>,
     <<";", "{u+ff1b}", "{u+037e}">>
 >>
+(* delimiter-dense inline fragments: every sequence of up to four, bare and inside a link / image / emphasis,
+   is executed (not sampled) by C02 and C04 - the post-processing of delimiter runs (emphasis, strikethrough,
+   odd runs, runs next to a closing bracket) is where token order and nesting are rearranged *)
+LD == <<"*", "**", "_", "~~", "~~~", "a", " ", "[", "](/u)", "`">>
+LDAll == 1..10
+WrapD == << <<"[", "](/u)">>, <<"![", "](/s)">>, <<"*", "*">> >>
 (* characters explored one position deeper *)
 L0Core == 1..17
 =============================================================================
